@@ -45,7 +45,7 @@ func init() {
 					done = true
 					break
 				}
-				lines = append(lines, append([]byte{}, line...))
+				lines = append(lines, line) // deliberately not copied: a caller may keep the line while reading on
 			}
 			if !done {
 				return []string{"2"}
